@@ -27,6 +27,7 @@ var c03Items = []string{
 	"s(Y)", "d(Y)",
 	"call((g(Y), !))", "call((g(Y), !, put_char(m)))", "call(!)", "G = (g(Y), !), call(G)", "call(s, Y)",
 	"\\+ (g(Y), !, Y > 5)", "\\+ (g(Y), Y > 2, !)", "once(g(Y))", "once((g(Y), Y > 1))",
+	"once((g(Y), !))", "once(!)", "once((g(Y), !, put_char(m)))", "\\+ \\+ (g(Y), !)", "call(once, (g(Y), !))",
 	"(g(Y) -> put_char(t) ; put_char(e))", "(g(Y), Y > 5 -> put_char(t) ; put_char(e))", "(g(Y), Y > 1 -> true)", "(fail -> true ; g(Y))",
 	"findall(Y, (g(Y), !), L)", "findall(Y, (g(Y), Y > 1, !), L)", "bagof(Y, (g(Y), !), L)", "setof(Y, (g(Y), Y < 3), L)",
 	"catch((g(Y), !), _, true)", "catch((g(Y), Y > 1, !, put_char(m)), _, true)",
@@ -51,7 +52,7 @@ var c03Contexts = []string{
 // depth sweep: a reduced set of skeletons is called underneath a non tail recursive stack of every
 // depth 0..D, so that any stack-size dependent behaviour of the machine (growth, compaction)
 // falls between the call and the cut for some depth.
-var c03SweepItems = []string{"g(X)", "g(Y)", "!", "s(Y)", "X > 1", "call((g(Y), !))", "once(g(Y))", "catch((g(Y), !), _, true)", "\\+ (g(Y), !, Y > 5)"}
+var c03SweepItems = []string{"g(X)", "g(Y)", "!", "s(Y)", "X > 1", "call((g(Y), !))", "once(g(Y))", "once((g(Y), !))", "catch((g(Y), !), _, true)", "\\+ (g(Y), !, Y > 5)"}
 
 func c03Sweep(w *h.W) {
 	maxDepth := w.Pick(72, 140)
@@ -218,7 +219,7 @@ func c03Two(w *h.W, run func([]T, int), a, b []int, shape int) {
 func init() {
 	h.Register(&h.Check{
 		ID: "C03",
-		Rule: "all control skeletons: predicate t/2 whose enumerated clause body is every sequence of <= L items over 28 item shapes (generators that trace entry/redo on the output, tests, '!', recursive/cutting sub-predicates, and the opaque wrappers call/1, call/2, \\+, once, ->, findall, bagof, setof, catch containing cuts), placed between fixed clauses, as two enumerated clauses, and as a top-level disjunction; each skeleton is run in 13 calling contexts (older choice points before/after, inside findall, as last call, three levels deep, under call/N, \\+, ->, once, followed by a cut). Cuts occur only as direct conjuncts of a clause body or top-level disjunct, as the property states. Non-trivial = the reference yields an answer or error; distinct = program text.",
+		Rule: "all control skeletons: predicate t/2 whose enumerated clause body is every sequence of <= L items over 33 item shapes (generators that trace entry/redo on the output, tests, '!', recursive/cutting sub-predicates, and the opaque wrappers call/1, call/2, \\+, once, ->, findall, bagof, setof, catch containing cuts), placed between fixed clauses, as two enumerated clauses, and as a top-level disjunction; each skeleton is run in 13 calling contexts (older choice points before/after, inside findall, as last call, three levels deep, under call/N, \\+, ->, once, followed by a cut). Cuts occur only as direct conjuncts of a clause body or top-level disjunct, as the property states. Non-trivial = the reference yields an answer or error; distinct = program text.",
 		Explanation: "state = one skeleton program loaded into a fresh real interpreter; transition = one context query run to exhaustion, comparing the answer sequence AND the character trace written by every generator clause with the reference machine (ISO cut barriers)",
 		Assumptions: []string{"reference machine ref/solve implements ISO 7.8.4 cut semantics (self-checked against the ISO examples)", "placements of '!' inside nested ;/,/-> are excluded: this implementation makes them local by design and the property excludes them"},
 		Work:        c03Work,
